@@ -46,7 +46,7 @@ pub fn meta(tier: Tier) -> CheckMeta {
             "interleavings are sampled, not exhausted; thread counts above 16 not covered".into(),
             "hangs are decided by the supervisor's quiescence watchdog (no CPU, no progress)".into(),
         ],
-        parts: vec![PartSpec { name: "native", nshards: 8, budget_s: tier.pick(300, 2400), env: vec![], program: None }],
+        parts: vec![PartSpec { name: "native", nshards: 8, budget_s: tier.pick(300, 2400), env: vec![], program: None, prepare: None, sanitizer: None }],
         must_be_nonzero: vec![
             ("container_rounds_crossing_32", "container never upgraded under contention"),
             ("engine_rounds_fan_in_over_32", "no engine round with fan-in > 32"),
@@ -328,7 +328,7 @@ pub fn worker(ctx: &WorkerCtx) -> Report {
     let mut rep = Report::default();
     let base = Rng::new(ctx.seed).derive(200 + ctx.shard as u64);
     // ---- (e) container histories
-    let rounds: u64 = if ctx.part == "miri" { 2 } else { ctx.tier.pick(1500, 60_000) };
+    let rounds: u64 = if ctx.part == "miri" { 2 } else { ctx.pick(30_000, 600_000) };
     let mut container_bad = 0;
     for i in 0..rounds {
         let mut r = base.derive(i);
@@ -367,7 +367,7 @@ pub fn worker(ctx: &WorkerCtx) -> Report {
         return rep;
     }
     // ---- engine rounds
-    let n: u64 = ctx.tier.pick(30, 500);
+    let n: u64 = ctx.pick(300, 5000);
     let mut seen = HashSet::new();
     for i in 0..n {
         let mut r = base.derive(1_000_000 + i);
@@ -377,7 +377,7 @@ pub fn worker(ctx: &WorkerCtx) -> Report {
                 0 => 20 + r.below(12) as u32,
                 1..=4 => 33 + r.below(30) as u32,
                 5 | 6 => 64 + r.below(200) as u32,
-                _ => ctx.tier.pick(300, 2000) as u32,
+                _ => ctx.pick(300, 2000) as u32,
             };
             let (p, roots, inputs) = fan_in_program(&mut r, fan);
             (p, roots, inputs, fan)
